@@ -3,22 +3,11 @@ import json, os
 VERIF = os.path.dirname(os.path.dirname(os.path.dirname(os.path.abspath(__file__))))
 ALL = ["C%02d" % i for i in range(1, 21)]
 
-CHECKS = {
- "C19": dict(
-    engine="ops-diff",
-    category="proof",
-    text=("Lean 4 refinement theorem: for every validity predicate and every add/remove/exists history the model of "
-          "PathManager/PathTrie returns, step by step, what the set-of-maximal-paths specification returns and stores "
-          "exactly its paths (C19_refines); corollaries give the statement's clauses (only maximal valid added paths for "
-          "add-only histories, no duplicates, no invalid site, re-add after removal). The model is tied to the code by an "
-          "exhaustive-small + random op-sequence diff against the real PathManager on every run, with an independent "
-          "Python restatement of the property as failing-input oracle."),
-    design_ref="DESIGN.md §5 C19",
-    note=("Trusted: Lean kernel; axioms propext/Classical.choice/Quot.sound only; lvdrv compilation; the model "
-          "represents the dict trie as the set of its node paths (representation abstraction validated by the diff); "
-          "harness canonicalisation = sorting the stored path set."),
-    technique="Lean 4 refinement proof (invariant induction) + op-sequence correspondence diff"),
-}
+CHECKS = {}
+_md = os.path.join(os.path.dirname(os.path.abspath(__file__)), "manifest")
+for _f in sorted(os.listdir(_md)):
+    if _f.endswith(".json"):
+        CHECKS[_f[:-5]] = json.load(open(os.path.join(_md, _f)))
 
 NOT_YET = "check not built yet in this round (see DESIGN.md §10 implementation order); no claim is made"
 
